@@ -406,3 +406,11 @@ mod tests {
         }
     }
 }
+
+#[cfg(feature = "verif")]
+impl RxCtrState {
+    /// Verification hook: `(max_ctr, ctr_bitmap)`
+    pub fn verif_parts(&self) -> (u32, u16) {
+        (self.max_ctr, self.ctr_bitmap)
+    }
+}
